@@ -444,14 +444,15 @@ func (s *Runner) Run(c *Case) {
 '''
 
 FSEC_TAIL = '''
-// Runner runs cases for one goroutine.
+// Runner runs cases for one goroutine (cmd/sec: runner, what one driver process remembers between calls).
 type Runner struct {
-	W   Sink
-	Rng *rand.Rand // only used by cases without explicit key / COUNT / data (none in the concurrent case files)
+	W Sink
+	r *runner
 }
 
-// NewRunner makes the runner of one goroutine.
-func NewRunner(w Sink) *Runner { return &Runner{W: w, Rng: rand.New(rand.NewSource(1))} }
+// NewRunner makes the runner of one goroutine.  The generator is only used by cases without explicit key / COUNT / data
+// (none in the concurrent case files).
+func NewRunner(w Sink) *Runner { return &Runner{W: w, r: newRunner(rand.New(rand.NewSource(1)))} }
 
 // Load reads a case file (the format cmd/sec replays).
 func Load(path string) []Case {
@@ -470,7 +471,7 @@ func Load(path string) []Case {
 func (r *Runner) Finish() {}
 
 // Run executes one case (the loop body of cmd/sec replay).
-func (r *Runner) Run(c *Case) { r.W.Emit(runCase(r.Rng, *c)) }
+func (r *Runner) Run(c *Case) { r.W.Emit(r.r.runCase(*c)) }
 '''
 
 
@@ -478,7 +479,8 @@ def gen_sec():
     src = open(os.path.join(CMD, "sec", "main.go")).read()
     body = cut(src, "// Case is one point of the TLC-generated lattice.", "func replay(in, out string)", "fsec")
     if re.search(r"(?m)^var \w+", body): raise SyncError("fsec: new package-level variable in cmd/sec")
-    if "func runCase(rng *rand.Rand, c Case) Ev {" not in body: raise SyncError("fsec: runCase(rng, c) Ev is gone: adapt tools/conc_sync.py")
+    for need in ("func (r *runner) runCase(c Case) Ev {", "func newRunner(rng *rand.Rand) *runner {"):
+        if need not in body: raise SyncError("fsec: %r is gone from cmd/sec: adapt tools/conc_sync.py" % need)
     text = unsync(body, "fsec") + "\n" + SINK + FSEC_TAIL
     return HEAD % dict(drv="sec", pkg="fsec", what="the call function of cmd/sec (C06 / C07: ciphering and integrity entry points)", trace="Trace_C06/Trace_C07") + \
         imports_for(src, text, ("os", "encoding/json", "math/rand")) + "\n" + text
@@ -564,7 +566,22 @@ def generate():
         out["f09"] = gen_ie()
     out["f17"] = gen_state_family("f17", "conv17", "Trace_C17", "the converters of cmd/conv17 (C17: timers, session AMBR, time zone / DST / universal time, network names)",
                                   "type Ev struct")
-    out["f12"] = gen_state_family("f12", "identity", "Trace_C12", "the converters of cmd/identity (C12: identities between wire and text)", "type Ev struct")
+    out["f12"] = gen_state_family(
+        "f12", "identity", "Trace_C12", "the converters of cmd/identity (C12: identities between wire and text)", "type Ev struct", keep=("sharedMI",),
+        patches=[("func mi(wire []int) *nasType.MobileIdentity5GS {\n\treturn &nasType.MobileIdentity5GS{Len: uint16(len(wire)), Buffer: ev.Bytes(wire)}\n}\n",
+                  "// sharedMI: one decoded identity element per distinct wire form of the case file, built by Load before the goroutines start\n"
+                  "// and only read afterwards: ALL goroutines call the getters on the SAME element (the family driver builds a fresh element\n"
+                  "// per call; a getter is a read, so that must make no difference to any result).\n"
+                  "var sharedMI map[string]*nasType.MobileIdentity5GS\n\n"
+                  "func mi(wire []int) *nasType.MobileIdentity5GS {\n\tif a := sharedMI[string(ev.Bytes(wire))]; a != nil {\n\t\treturn a\n\t}\n"
+                  "\treturn &nasType.MobileIdentity5GS{Len: uint16(len(wire)), Buffer: ev.Bytes(wire)}\n}\n")],
+        norm="""
+	sharedMI = map[string]*nasType.MobileIdentity5GS{}
+	for i := range cs {
+		if w := cs[i].W; len(w) > 0 && cs[i].Fam != "plmn" {
+			sharedMI[string(ev.Bytes(w))] = &nasType.MobileIdentity5GS{Len: uint16(len(w)), Buffer: ev.Bytes(w)}
+		}
+	}""")
     out["f13"] = gen_state_family(
         "f13", "arealists", "Trace_C13", "the converters of cmd/arealists (C13: S-NSSAI / NSSAI / rejected NSSAI / TAI list / service area list / LADN)", "type Sn struct",
         patches=[("\t// child process: the result cannot be held across calls of this process; it is logged as read once\n",
